@@ -53,6 +53,8 @@ def native_replay(snap, g: Group, inputs, workdir):
     os.makedirs(workdir, exist_ok=True)
     d = snap.cfg_dir(g.config)
     tus = g.native_tus if g.native_tus is not None else g.tus
+    extra_from_tus = [f for t in tus for f in t.split("|")[1:]]
+    tus = [t.split("|")[0] for t in tus]
     srcs = [t if t.startswith("/") else os.path.join(d, "m4ri", t + ".c") for t in tus if t != "@libm"]
     defs = ["-D%s=%s" % (k, v) if v is not None else "-D%s" % k for k, v in g.defines.items()]
     exe = os.path.join(workdir, "replay.bin")
@@ -80,6 +82,10 @@ def native_replay(snap, g: Group, inputs, workdir):
         oc = "replay-error"
     else:
         oc = "reproduced"
+        # a sanitizer report whose innermost frame is in the harness / contract text is a problem of the spec evaluation, not of the library
+        m = re.search(r"#0 0x[0-9a-f]+ in \S+ (\S+)", out)
+        if m and m.group(1).startswith(VERIF) and ("runtime error" in out or "AddressSanitizer" in out):
+            oc = "spec-evaluation-error"
     return {"outcome": oc, "exit": rc, "output": out, "cmd": " ".join(cmd)}
 
 
